@@ -108,9 +108,8 @@ pub struct Case {
     /// too and counted in excluded_known.
     #[serde(default)]
     pub strict: bool,
-    /// true (reproducer of a known finding only): at the end the frontend is removed while flows are
-    /// alive, then the listener is deactivated (which closes them). Generated scenarios deactivate
-    /// the listener first.
+    /// true: at the end the frontend is removed while flows are alive, then the listener is
+    /// deactivated (which closes them); false: the listener is deactivated first.
     #[serde(default)]
     pub unroute_live: bool,
     /// order in which the worker learns the configuration (the final state is the same):
@@ -171,7 +170,7 @@ pub fn strategy() -> impl Strategy<Value = Case> {
                 clients,
                 steps,
                 strict: false,
-                unroute_live: false,
+                unroute_live: (seed >> 23) % 2 == 1,
                 config_order: ((seed >> 17) % 3) as u8,
             }
         })
@@ -753,10 +752,10 @@ fn drive(lab: &mut UdpLab, case: &Case) -> Result<Observed, Failure> {
 
     // ---- take the configuration down again (the worker is reused)
     if lab.worker.alive() {
-        // Known finding C19/worker-died:flows-closed-after-unroute: removing the frontend switches the
-        // manager to the default (IP-only) affinity; flows admitted in IP+port mode that are closed
-        // afterwards leave their entry in the shell's shadow table (debug assertion at lib/src/udp.rs:1631).
-        // Generated scenarios close the flows first (deactivation), the reproducer does not.
+        // Finding C19/worker-died:flows-closed-after-unroute (repaired in sozu, 3c7e5ec): removing the frontend
+        // switches the manager to the default (IP-only) affinity; flows admitted in IP+port mode that were closed
+        // afterwards left their entry in the shell's shadow table (debug assertion in lib/src/udp.rs).
+        // Half of the generated scenarios now remove the frontend while flows are alive.
         let unroute = RequestType::RemoveUdpFrontend(RequestUdpFrontend { cluster_id: cluster.clone(), address: front.into(), ..Default::default() });
         let deactivate = RequestType::DeactivateListener(DeactivateListener { address: front.into(), proxy: ListenerType::Udp.into(), to_scm: false });
         let mut down = if case.unroute_live { vec![unroute, deactivate] } else { vec![deactivate, unroute] };
@@ -891,9 +890,7 @@ fn judge(case: &Case, o: &Observed) -> CheckResult {
         }
         by_from.entry((a.from, a.backend)).or_default().push((a.order, c, s, pp.is_some()));
     }
-    // known shapes left out by construction, one count per scenario each: the PROXY v2 destination is
-    // compared with the backend's address too; the frontend is not removed while IP+port flows live
-    rep.excluded_known += u64::from(case.with_port && !case.unroute_live && !o.arrivals.is_empty());
+    rep.class_if(case.unroute_live && !o.arrivals.is_empty(), "frontend_removed_while_flows_alive");
 
     // ---- (1) isolation: one upstream socket carries one client's flow
     let mut lives: Vec<Life> = vec![];
